@@ -37,10 +37,13 @@ class C06(Spec):
                 g2 = g2[::3]
             for s in base + g2:
                 out.append(self.job(dict(s, rule=r), budget=240.0 if tier == "quick" else 600.0))
+        # MD013 'special elements': three independent limits (1..12) and the two switches symbolic
+        for sk in (["# ab cd e\n\n    fg hi\n\njk lm n\n"] if tier == "quick" else ["# ab cd e\n\n    fg hi\n\njk lm n\n", "ab c\n===\n\n```\nd e f g\n```\n"]):
+            out.append(self.job({"skeleton": sk, "holes": [], "rule": "md013x"}, budget=600.0))
         return out
 
     def bounds_text(self, tier):
-        return {"rules": RULES, "documents": "G1 length 0..1 + 2 skeletons every third position (quick) / G1 0..2 + 5 skeletons + mini pool (thorough)", "configuration": "br_spaces, maximum in 0..6; line_length unbounded Int >= 1; strict symbolic Bool"}
+        return {"rules": RULES, "documents": "G1 length 0..1 + 2 skeletons every third position (quick) / G1 0..2 + 5 skeletons + mini pool (thorough)", "configuration": "br_spaces, maximum in 0..6; line_length unbounded Int >= 1; strict symbolic Bool; MD013 special elements: line/heading/code limits 1..12 independent, code_blocks and headings symbolic Bools"}
 
     def readable(self, case):
         from checks.rule_real import doc_of
